@@ -11,24 +11,24 @@ EXTENDS Render, TLC
 
 CONSTANTS Alphabet, K, Prefixes   \* strings = prefix \o (any string over Alphabet of length <= K)
 
-VARIABLES s,     \* the picture built so far
-          k      \* symbols appended to the prefix
-Init == s \in Prefixes /\ k = 0
-Next == k < K /\ k' = k + 1 /\ \E c \in Alphabet : s' = Append(s, c)
-Spec == Init /\ [][Next]_<<s, k>>
+VARIABLES picture,     \* the picture built so far
+          appended      \* symbols appended to the prefix
+Init == picture \in Prefixes /\ appended = 0
+Next == appended < K /\ appended' = appended + 1 /\ \E c \in Alphabet : picture' = Append(picture, c)
+Spec == Init /\ [][Next]_<<picture, appended>>
 
 Probe == <<13608, 47289, 123456>>       \* 2007-04-05 13:08:09.123456
 
 \* (A) facts about the tokenizer checked in every state
 LexFacts ==
-  LET t == Lex(s) IN
+  LET t == Lex(picture) IN
   /\ IsInvalid(t) \/ \A i \in 1..Len(t) : t[i][1] # "invalid"
   \* blank runs are maximal: never two adjacent blank tokens
   /\ ~IsInvalid(t) => \A i \in 1..(Len(t) - 1) : ~(t[i][1] = "blank" /\ t[i + 1][1] = "blank")
 
 Emit ==
-  LET t == Lex(s)
-      verdict == IF Unjudged(s) THEN 2 ELSE IF ~IsInvalid(t) /\ Len(t) <= MaxFields THEN 1 ELSE 0
+  LET t == Lex(picture)
+      verdict == IF Unjudged(picture) THEN 2 ELSE IF ~IsInvalid(t) /\ Len(t) <= MaxFields THEN 1 ELSE 0
       text == IF verdict = 1 THEN RenderTokens(t, "TS", Probe) ELSE <<1, 0>>
-  IN PrintT(<<"GEN", s, verdict, IF IsInvalid(t) THEN 0 ELSE Len(t), text>>)
+  IN PrintT(<<"GEN", picture, verdict, IF IsInvalid(t) THEN 0 ELSE Len(t), text>>)
 =============================================================================
